@@ -4,8 +4,10 @@ import (
 	"bytes"
 	"fmt"
 	"path/filepath"
+	"sort"
 	"strings"
 
+	"sigs.k8s.io/yaml"
 	"verifsim/job"
 )
 
@@ -260,6 +262,86 @@ func init() {
 	runners["C18"] = runC18
 }
 
+// twiceDescribed stores one namespace, pod or workload a second time with other labels (an older export left in
+// the tree). Which description the analysis uses is the order in which the directory is read; the two
+// descriptions sit in places where that order and the order of the path strings differ (a directory next to a
+// file named after it) or agree. Whatever the choice, every API and the command line must make the same one.
+func twiceDescribed(r *rng, docs []Doc, lay Layout) ([]Doc, Layout) {
+	var cand []int
+	for i, d := range docs {
+		switch d.Kind {
+		case "Namespace", "Pod", "Deployment", "StatefulSet", "DaemonSet", "ReplicaSet", "Job":
+			cand = append(cand, i)
+		}
+	}
+	if len(cand) == 0 {
+		return docs, lay
+	}
+	i := pick(r, cand)
+	var m map[string]interface{}
+	if err := yaml.Unmarshal([]byte(docs[i].Text), &m); err != nil {
+		return docs, lay
+	}
+	holder := m
+	if docs[i].Kind != "Namespace" && docs[i].Kind != "Pod" {
+		spec, _ := m["spec"].(map[string]interface{})
+		tmpl, _ := spec["template"].(map[string]interface{})
+		if tmpl == nil {
+			return docs, lay
+		}
+		holder = tmpl
+	}
+	meta, _ := holder["metadata"].(map[string]interface{})
+	if meta == nil {
+		meta = map[string]interface{}{}
+		holder["metadata"] = meta
+	}
+	labels, _ := meta["labels"].(map[string]interface{})
+	nl := map[string]interface{}{}
+	keys := []string{}
+	for k, v := range labels {
+		nl[k] = v
+		keys = append(keys, k)
+	}
+	sort.Strings(keys)
+	switch {
+	case len(keys) > 0 && r.chance(1, 2):
+		delete(nl, pick(r, keys))
+	case len(keys) > 0:
+		nl[pick(r, keys)] = "older"
+	default:
+		nl[pick(r, labelKeys)] = pick(r, labelVals)
+	}
+	meta["labels"] = nl
+	b, err := yaml.Marshal(m)
+	if err != nil {
+		return docs, lay
+	}
+	j := len(docs)
+	docs = append(append([]Doc{}, docs...), Doc{Kind: docs[i].Kind, NS: docs[i].NS, Name: docs[i].Name, Text: string(b)})
+	// take the first description out of the file it was in
+	var nlay Layout
+	for _, f := range lay {
+		var d []int
+		for _, x := range f.Docs {
+			if x != i {
+				d = append(d, x)
+			}
+		}
+		if len(d) > 0 {
+			f.Docs = d
+			nlay = append(nlay, f)
+		}
+	}
+	pairs := [][2]string{{"t/x.yaml", "t.yaml"}, {"t/x.yaml", "t-x.yaml"}, {"t/x.yaml", "t0.yaml"}, {"a.d/k.yaml", "a.yaml"}, {"m-00.yaml", "m-01.yaml"}, {"zz/q.yaml", "zz.yml"}}
+	pr := pick(r, pairs)
+	if r.chance(1, 2) {
+		pr[0], pr[1] = pr[1], pr[0]
+	}
+	nlay = append(nlay, LFile{Path: pr[0], Docs: []int{i}}, LFile{Path: pr[1], Docs: []int{j}})
+	return docs, nlay
+}
+
 func c18Build(seed uint64, i int, corpus []CorpusDir, faulty bool) *c18Case {
 	r := sub(seed, "C18", "case", i, fmt.Sprint(faulty))
 	c := &c18Case{name: fmt.Sprintf("c18:%d", i), seed: r.u64() >> 1}
@@ -287,6 +369,9 @@ func c18Build(seed uint64, i int, corpus []CorpusDir, faulty bool) *c18Case {
 		if r.chance(1, 10) {
 			c.docs = append(c.docs, Doc{Kind: "Deployment", Name: "bad", Text: fmt.Sprintf(badSchemaDocs[0], "bad")})
 			c.lay = randomLayout(r, len(c.docs))
+		}
+		if r.chance(1, 5) {
+			c.docs, c.lay = twiceDescribed(r, c.docs, c.lay)
 		}
 	}
 	c.cmd, c.dir2 = "list", "b"
